@@ -34,7 +34,9 @@ import (
 	"k8s.io/klog/v2"
 )
 
-var errRetry = errors.New("retry")
+// errRetry tells backoff.Retry to back off and call the function again. It has
+// to be a backoff.RetriableError: Retry returns immediately on any other error.
+var errRetry = backoff.RetriableError("retry")
 
 // PreorderedLogClient is a means of communicating with a single Trillian
 // pre-ordered log tree.
